@@ -232,6 +232,9 @@ def _used_as_offset(loop, var):
         if isinstance(n, ast.Call) and pf.call_name(n) == "misc.symm" and len(n.args) >= 3 \
                 and var in pf.names_in(n.args[2]):
             return True
+        if isinstance(n, ast.Call) and isinstance(n.func, ast.Name) and n.func.id == "slice" and n.args \
+                and var in pf.names_in(n.args[0]):
+            return True
     return False
 
 
@@ -265,7 +268,15 @@ def analyze(fn, mod, qual=None):
         for n in ast.walk(loop):
             if pf.enclosing_function(n) is not pf.enclosing_function(loop):
                 continue
-            if isinstance(n, ast.Call):
+            if isinstance(n, ast.Call) and isinstance(n.func, ast.Name) and n.func.id == "slice" and len(n.args) == 2 \
+                    and var in pf.names_in(n.args[0]):
+                lo, hi = from_pyast(n.args[0], env), from_pyast(n.args[1], env)
+                if lo is not None and hi is not None:
+                    shift = lo - vs
+                    E = hi - lo
+                    if var not in shift.symbols() and var not in E.symbols():
+                        accesses.append((n, "slice()", shift, E, None))
+            elif isinstance(n, ast.Call):
                 nm = pf.call_name(n)
                 b = bind(n, nm) if nm else None
                 if not b:
